@@ -10,7 +10,9 @@ ANCHOR_FILES = ['config.py']
 RULE = ('2-3 registered probes, then a history of 8-25 operations over {finalize, unlock_config block (body of 0-4 ops, '
         'nested up to depth 2, leaving normally or by an exception), bind (valid and invalid), late registration, '
         'clear_config, finalize-hook registration (returning keys in random spellings / None / raising), '
-        'config_is_locked and store observations}; non-trivial = the history contains a successful finalize followed by a '
+        'config_is_locked and store observations}, plus segments: what finalize rejects sitting inside a container used as a '
+        'dict key (tuple / nested tuple / frozenset), and a registered probe registered again (same object, same name, other '
+        'lists) on the finalized configuration; non-trivial = the history contains a successful finalize followed by a '
         'rejected mutation, or an unlock block whose body raises while the configuration was locked; distinct = canonical ops')
 TRUSTED_BASE = ['Lean 4.33 kernel', 'axioms ⊆ {propext, Classical.choice, Quot.sound}', 'JSON glue (Gin/Drv)',
                 'harness gindom.py / gen_gin.py / refmodel.py', 'hooks are data-driven closures built by the harness']
@@ -66,8 +68,114 @@ def gen_case(rng):
       if rng.random() < 0.5:
         body = [cop, {'op': 'registry'}, G.gen_bind_attempt(rng, [mop], scopes)]
         ops.append({'op': 'unlock', 'body': body, 'raises': rng.random() < 0.3})   # inside an unlock block it goes through
+  if rng.random() < 0.3:
+    ops += gen_nested_key_segment(rng, regs, scopes)
+  if rng.random() < 0.3:
+    seg = gen_reregister_segment(rng, regs, scopes)
+    if seg and rng.random() < 0.5:
+      # right after the probes were registered: no hook, no binding yet, the finalize goes through for sure
+      ops = list(regs) + seg + [{'op': 'clear', 'constants': False}] + ops[len(regs):]
+    else:
+      ops += [{'op': 'clear', 'constants': False}] + seg
   ops += [{'op': 'locked'}, {'op': 'config'}, {'op': 'registry'}]
   return {'dom': 'gin', 'ops': ops}
+
+
+def _valid_params(reg):
+  return [n for n, k in G.param_classes(reg).items() if k == 'valid' and n != 'anyk']
+
+
+def gen_nested_key_segment(rng, regs, scopes):
+  """What finalize rejects, sitting inside a container that is a *key* of a dict (a tuple key, a tuple in a tuple key,
+  a frozenset key): an unbound macro, an unevaluated macro, a reference to an unknown configurable. Finalize is
+  refused and the configuration stays unlocked; once the macro is bound (where that is the only objection) it goes
+  through."""
+  withp = [r for r in regs if _valid_params(r)]
+  if not withp:
+    return []
+  reg = rng.choice(withp)
+  arg = rng.choice(_valid_params(reg))
+  mname = rng.choice(['m3', 'a/m3', 'mu'])
+  kind = rng.choice(['unbound', 'unbound', 'unevaluated', 'unknown', 'unknown', 'bound'])
+  if kind in ('unbound', 'bound'):
+    inner = {'macro': mname}
+  elif kind == 'unevaluated':
+    inner = {'ref': [mname.split('/'), 'gin.macro', False]}
+  else:
+    inner = {'unk': [rng.choice(['zz.nope', 'no_such_configurable']), rng.random() < 0.5]}
+  textual = kind != 'unknown' and rng.random() < 0.6    # the parser writes `{(%m3, 1): 2}` just as well
+  shape = rng.randrange(5 if textual else 6)
+  other = rng.choice([1, {'s': 'k'}, None])
+  if shape == 0:
+    key = {'t': [inner, other]}
+  elif shape == 1:
+    key = {'t': [other, inner]}
+  elif shape == 2:
+    key = {'t': [inner]}
+  elif shape == 3:
+    key = {'t': [other, {'t': [inner, 2]}]}
+  elif shape == 4:
+    key = {'t': [{'t': [{'t': [inner]}]}, other]}
+  else:
+    key = {'set': [inner]}
+  val = {'d': [[key, rng.choice([2, {'s': 'v'}, {'l': [1]}])]]}
+  r = rng.random()
+  if r < 0.25:
+    val = {'l': [0, val]}
+  elif r < 0.4:
+    val = {'d': [[1, val]]}        # the dict with the container key is itself a value of a dict
+  elif r < 0.5:
+    val = {'t': [val]}
+  bind = {'op': 'bind', 'scope': '/'.join(rng.choice(scopes)), 'sel': reg['_selector'], 'arg': arg, 'val': val,
+          '_form': 'text' if textual else rng.choice(['tuple', 'str']), 'block': False, '_reg': reg['obj'], '_pclass': 'valid'}
+  macro_bind = {'op': 'bind', 'scope': mname, 'sel': 'gin.macro', 'arg': 'value', 'val': rng.randint(1, 9),
+                '_form': 'macro_text', 'block': False}
+  seg = [{'op': 'clear', 'constants': False}]
+  if kind == 'bound':
+    seg.append(macro_bind)
+  seg += [bind, {'op': 'config'},
+          {'op': 'finalize', '_enter': G.gen_enter(rng, rng.choice(scopes)) if rng.random() < 0.3 else []},
+          {'op': 'locked'}, {'op': 'config'}]
+  if kind == 'unbound' and rng.random() < 0.6:
+    seg += [macro_bind, {'op': 'finalize'}, {'op': 'locked'}]
+  return seg
+
+
+def gen_reregister_segment(rng, regs, scopes):
+  """On a finalized configuration a probe is registered once more: the very same object under the very name it has,
+  with other allow / deny lists. That is an attempt to register a configurable like any other: refused, and the
+  entry (its lists included) is what it was - a parameter the new lists would exclude can still be bound inside an
+  unlock block, one the old lists exclude still cannot."""
+  import copy
+  seg = []
+  for reg in rng.sample(regs, rng.randint(1, len(regs))):
+    pos, kwo = G.sig_names(reg['sig'], reg['_kind'])
+    cand = pos + kwo
+    again = copy.deepcopy(reg)
+    again['_reuse'] = reg['obj']
+    r = rng.random()
+    if cand and r < 0.45:
+      again.update(allow=[], deny=rng.sample(cand, rng.randint(1, len(cand))))
+    elif cand and r < 0.8:
+      again.update(allow=rng.sample(cand, rng.randint(1, len(cand))), deny=[])
+    else:
+      again.update(allow=[], deny=[])
+    if rng.random() < 0.5:
+      # the name and module it already has, spelled out
+      again.update(_name_arg=reg['name'], _explicit_module=reg['module'], _direct=False)
+    seg.append(again)
+  first = [G.gen_bind_attempt(rng, regs, scopes) for _ in range(rng.randint(0, 2))]
+  tail = [{'op': 'registry'}, {'op': 'locked'}]
+  body = []
+  for reg in regs:
+    for n in _valid_params(reg) + [n for n, k in G.param_classes(reg).items() if k in ('denied', 'unlisted')]:
+      if rng.random() < 0.7:
+        body.append({'op': 'bind', 'scope': '/'.join(rng.choice(scopes)), 'sel': reg['_selector'], 'arg': n,
+                     'val': G.gen_value(rng, 1), '_form': rng.choice(['tuple', 'str', 'text']), 'block': False,
+                     '_reg': reg['obj'], '_pclass': G.param_classes(reg)[n]})
+  tail.append({'op': 'unlock', 'body': body, 'raises': rng.random() < 0.3})
+  tail += [{'op': 'config'}, {'op': 'locked'}]
+  return first + [{'op': 'finalize'}, {'op': 'locked'}] + seg + tail
 
 
 def gen_cases(rng, tier, boost=1):
